@@ -81,7 +81,7 @@ PROPS = {
         thorough=dict(runs=150000),
         rule=("each run = 1-3 glob patterns drawn from 8 overlapping ones (absolute and relative, '*', '?', directory wildcards, a path with '..'), "
               "an optional ignore regexp, a small real directory tree and a history of 1-8 actions {create, delete, rename to a free name, replace, "
-              "delete + stream poll + re-create between two pattern polls, mkdir/rmdir, rename directory, a directory whose name matches a file pattern, "
+              "delete + stream poll + re-create between two pattern polls, replace + delete placed 0-399 single statements into the stream poll that notices the replacement + re-create, mkdir/rmdir, rename directory, a directory whose name matches a file pattern, "
               "poll}, each followed by an observation (one run in four "
               "the patterns also match an untailable entry, a symlink to a device node); then a unique "
               "probe line is appended to every file of the tree. All interleavings of the pattern pollers (one per pattern, racing to TailPath the same "
@@ -92,7 +92,7 @@ PROPS = {
             "'matches a pattern' is path/filepath.Match on the absolute path (the standard library's glob definition)",
             "renaming a file onto an existing tailed path is a rotation of that path (C16) and is not generated here",
         ],
-        expect_probes=["two_or_more_tailed", "create", "delete", "rename", "replace", "recreate_between_pattern_polls", "directory_change", "directory_matching_pattern"],
+        expect_probes=["two_or_more_tailed", "create", "delete", "rename", "replace", "recreate_between_pattern_polls", "delete_during_stream_poll", "directory_change", "directory_matching_pattern"],
         real=["tailer.Tailer (AddPattern, Ignore, pollLogPattern, doPatternGlob, TailPath, forwarder/removal)", "logstream.fileStream", "kernel filesystem", "log_count expvar"],
         stub=["waker.Waker (simulated ticks in 4 runs of 5; mtail's real timed waker under the fake clock in the fifth)"],
     ),
